@@ -4,12 +4,17 @@ use crate::infra::hashers::{CtlBuildHasher, HMode};
 use crate::infra::rngs::FastRng;
 
 /// hasher families of DESIGN §3.1 for generic (non-crafted) workloads
+/// hash words at the edges of the 64-bit range (under the Identity hasher a key is its own hash)
+pub const EXTREME_WORDS: [u64; 10] = [0, 1, u64::MAX, u64::MAX - 1, 1 << 63, (1 << 63) - 1, 1 << 32, u32::MAX as u64, (1 << 63) + 1, u64::MAX / 3];
+
 pub fn pick_hasher(r: &mut FastRng) -> CtlBuildHasher {
     match r.below(10) {
         0..=3 => CtlBuildHasher::new(HMode::Mix, r.next()),
         4..=5 => CtlBuildHasher::new(HMode::Sip, r.next()),
         6 => CtlBuildHasher::new(HMode::Collide(1 + r.below(6) as u8), r.next()),
-        7 => CtlBuildHasher::new(HMode::Constant, r.next()),
+        // every element hashes to one word; half of the time an extreme one (all ones maps to the
+        // largest fingerprint / remainder, all zeros to the smallest)
+        7 => CtlBuildHasher::new(HMode::Constant, if r.chance(0.5) { *r.pick(&EXTREME_WORDS) } else { r.next() }),
         8 => CtlBuildHasher::identity(),
         _ => CtlBuildHasher::layout(),
     }
@@ -106,6 +111,13 @@ pub fn qf_universe(cfg: &QfCfg, r: &mut FastRng, size: usize) -> Vec<u64> {
     let span = 1 + r.below(4);
     let rem_span = if r.chance(0.5) { nr.min(8) } else { nr };
     let mut seen = std::collections::HashSet::new();
+    if r.chance(0.3) {
+        for w in [0u64, u64::MAX, 1 << 63] {
+            if u.len() < size && seen.insert(w) {
+                u.push(w);
+            }
+        }
+    }
     let mut tries = 0;
     while u.len() < size && tries < size * 20 {
         tries += 1;
@@ -159,6 +171,12 @@ pub fn qf_universe(cfg: &QfCfg, r: &mut FastRng, size: usize) -> Vec<u64> {
 pub fn cuckoo_universe(cfg: &CuckooCfg, r: &mut FastRng, size: usize) -> Vec<u64> {
     let mut u: Vec<u64> = Vec::with_capacity(size);
     if cfg.bh.mode != HMode::Layout {
+        if cfg.bh.mode == HMode::Identity || r.chance(0.1) {
+            // keys that are extreme hash words under the Identity hasher
+            let mut e = EXTREME_WORDS.to_vec();
+            r.shuffle(&mut e);
+            u.extend(e.into_iter().take(size.min(1 + r.below(6) as usize)));
+        }
         while u.len() < size {
             u.push(r.next());
         }
